@@ -191,6 +191,10 @@ def one_run(run, ct, net, mode, sets, failing, post, objective, seed, M, real_po
     ids = []
     for m_, p in zip(opt.method_choices, opt.param_choices):
         ids.append(CTX.tag2id.get(p.get("tag")) if m_ == "verif" else None)
+    if mode == "serial" and "verif" in methods:
+        # trials run and are reported one at a time: the k-th report is the k-th invocation (tags may repeat with
+        # samplers that converge, so they are not used here)
+        ids = list(range(1, len(opt.scores) + 1))
     if mode == "fake":
         events = []
         it = iter(ids)
@@ -218,7 +222,7 @@ def one_run(run, ct, net, mode, sets, failing, post, objective, seed, M, real_po
     if "tree" in opt.best:
         bp = opt.best.get("params", {})
         best_id = CTX.tag2id.get(bp.get("tag"), -1)
-        if "verif" not in methods:
+        if "verif" not in methods or mode == "serial":
             fin_ = [s for s in opt.scores if s != float("inf")]
             best_id = opt.scores.index(min(fin_)) + 1 if fin_ else 0
             if opt.best["score"] != min(fin_):
